@@ -31,13 +31,16 @@ VARIABLES
     rp,      \* rp[n]   : root node of n's repo
     uid,     \* uid[n]  : "auto" (server generated, unique) or a member of UUIDPool
     head,    \* head    : function from <<root, branch>> to the branch's leaf as tracked by the server
+    dead,    \* dead    : roots of deleted repos (their nodes and UUIDs no longer exist for clients)
     last     \* last request and its outcome (output only)
 
-dagvars == <<nn, par, kids, br, lk, kind, rp, uid, head>>
-vars == <<nn, par, kids, br, lk, kind, rp, uid, head, last>>
+dagvars == <<nn, par, kids, br, lk, kind, rp, uid, head, dead>>
+vars == <<nn, par, kids, br, lk, kind, rp, uid, head, dead, last>>
 
 Nodes == 1..nn
+Live == {n \in Nodes : rp[n] \notin dead}      \* nodes a client can still address
 Roots == {n \in Nodes : kind[n] = "root"}
+LiveRoots == Roots \ dead
 NoNode == 0                       \* an address that names no node ("unknown uuid")
 
 RECURSIVE AncOf(_)
@@ -45,12 +48,13 @@ RECURSIVE AncOf(_)
 AncOf(n) == {n} \cup UNION {AncOf(par[n][i]) : i \in 1..Len(par[n])}
 
 Range(s) == {s[i] : i \in 1..Len(s)}
-UsedUUIDs == {uid[n] : n \in Nodes} \ {"auto"}
+UsedUUIDs == {uid[n] : n \in Live} \ {"auto"}
 
 Init ==
     /\ nn = 0
     /\ par = <<>> /\ kids = <<>> /\ br = <<>> /\ lk = <<>> /\ kind = <<>> /\ rp = <<>> /\ uid = <<>>
     /\ head = <<>>
+    /\ dead = {}
     /\ last = [op |-> "init", ok |-> TRUE]
 
 AddNode(parents, branch, k, root, u) ==
@@ -81,10 +85,10 @@ UUIDFree(u) == u = "auto" \/ (u \in UUIDPool /\ u \notin UsedUUIDs)
 G_NewRepo(u) == UUIDFree(u)
 
 NewRepo_Ok(u) ==
-    /\ nn < MaxNodes /\ Cardinality(Roots) < MaxRepos
+    /\ nn < MaxNodes /\ Cardinality(LiveRoots) < MaxRepos
     /\ G_NewRepo(u)
     /\ AddNode(<<>>, "", "root", 0, u)
-    /\ SetHead(nn + 1, "", nn + 1)
+    /\ SetHead(nn + 1, "", nn + 1) /\ UNCHANGED dead
     /\ last' = [op |-> "newrepo", uuid |-> u, ok |-> TRUE, new |-> nn + 1]
 
 NewRepo_Rej(u) ==
@@ -94,12 +98,12 @@ NewRepo_Rej(u) ==
 (***************************************************************************)
 (* POST /api/node/<n>/commit                                               *)
 (***************************************************************************)
-G_Commit(n) == n \in Nodes /\ ~lk[n]
+G_Commit(n) == n \in Live /\ ~lk[n]
 
 Commit_Ok(n) ==
     /\ G_Commit(n)
     /\ lk' = [lk EXCEPT ![n] = TRUE]
-    /\ UNCHANGED <<nn, par, kids, br, kind, rp, uid, head>>
+    /\ UNCHANGED <<nn, par, kids, br, kind, rp, uid, head, dead>>
     /\ last' = [op |-> "commit", node |-> n, ok |-> TRUE]
 
 Commit_Rej(n) ==
@@ -114,17 +118,17 @@ SisterHas(n, b) == \E i \in 1..Len(kids[n]) : br[kids[n][i]] = b
 BranchUsed(root, b) == \E m \in Nodes : rp[m] = root /\ br[m] = b
 
 CanVersion(n, b) ==
-    /\ n \in Nodes /\ lk[n]
+    /\ n \in Live /\ lk[n]
     /\ IF b = br[n] THEN ~SisterHas(n, b) ELSE ~BranchUsed(rp[n], b)
 
-G_NewVersion(n, u) == n \in Nodes /\ CanVersion(n, br[n]) /\ UUIDFree(u)
-G_Branch(n, b, u) == n \in Nodes /\ b \notin {"", "master"} /\ CanVersion(n, b) /\ UUIDFree(u)
+G_NewVersion(n, u) == n \in Live /\ CanVersion(n, br[n]) /\ UUIDFree(u)
+G_Branch(n, b, u) == n \in Live /\ b \notin {"", "master"} /\ CanVersion(n, b) /\ UUIDFree(u)
 
 NewVersion_Ok(n, u) ==
     /\ nn < MaxNodes
     /\ G_NewVersion(n, u)
     /\ AddNode(<<n>>, br[n], "ver", rp[n], u)
-    /\ SetHead(rp[n], br[n], nn + 1)
+    /\ SetHead(rp[n], br[n], nn + 1) /\ UNCHANGED dead
     /\ last' = [op |-> "newversion", node |-> n, uuid |-> u, ok |-> TRUE, new |-> nn + 1]
 
 NewVersion_Rej(n, u) ==
@@ -135,7 +139,7 @@ Branch_Ok(n, b, u) ==
     /\ nn < MaxNodes
     /\ G_Branch(n, b, u)
     /\ AddNode(<<n>>, b, "ver", rp[n], u)
-    /\ SetHead(rp[n], b, nn + 1)
+    /\ SetHead(rp[n], b, nn + 1) /\ UNCHANGED dead
     /\ last' = [op |-> "branch", node |-> n, branch |-> b, uuid |-> u, ok |-> TRUE, new |-> nn + 1]
 
 Branch_Rej(n, b, u) ==
@@ -148,7 +152,7 @@ Branch_Rej(n, b, u) ==
 (***************************************************************************)
 TagBranch(t) == "tag-" \o t
 
-G_Tag(n, t) == n \in Nodes /\ CanVersion(n, TagBranch(t)) /\ t \in UUIDPool /\ t \notin UsedUUIDs
+G_Tag(n, t) == n \in Live /\ CanVersion(n, TagBranch(t)) /\ t \in UUIDPool /\ t \notin UsedUUIDs
 
 Tag_Ok(n, t) ==
     /\ nn < MaxNodes
@@ -161,7 +165,7 @@ Tag_Ok(n, t) ==
     /\ kind' = Append(kind, "ver")
     /\ rp' = Append(rp, rp[n])
     /\ uid' = Append(uid, t)
-    /\ SetHead(rp[n], TagBranch(t), nn + 1)
+    /\ SetHead(rp[n], TagBranch(t), nn + 1) /\ UNCHANGED dead
     /\ last' = [op |-> "tag", node |-> n, tag |-> t, ok |-> TRUE, new |-> nn + 1]
 
 Tag_Rej(n, t) ==
@@ -173,14 +177,14 @@ Tag_Rej(n, t) ==
 (***************************************************************************)
 MergeArgsOK(ps) ==
     /\ Len(ps) >= 2
-    /\ \A i \in 1..Len(ps) : ps[i] \in Nodes /\ lk[ps[i]] /\ rp[ps[i]] = rp[ps[1]]
+    /\ \A i \in 1..Len(ps) : ps[i] \in Live /\ lk[ps[i]] /\ rp[ps[i]] = rp[ps[1]]
     /\ \A i, j \in 1..Len(ps) : i # j => ps[i] # ps[j]
 
 Merge_Ok(ps) ==
     /\ nn < MaxNodes
     /\ MergeArgsOK(ps)
     /\ AddNode(ps, "", "merge", rp[ps[1]], "auto")
-    /\ UNCHANGED head            \* the server does not move any branch head on merge
+    /\ UNCHANGED <<head, dead>>   \* the server does not move any branch head on merge
     /\ last' = [op |-> "merge", parents |-> ps, ok |-> TRUE, new |-> nn + 1]
 
 Merge_Rej(ps) ==
@@ -188,10 +192,36 @@ Merge_Rej(ps) ==
     /\ Rej([op |-> "merge", parents |-> ps])
 
 (***************************************************************************)
+(* Deleting a repo (the `repos delete <uuid>` command): only by the UUID of *)
+(* its root.  All its nodes and UUIDs disappear; other repos are untouched. *)
+(***************************************************************************)
+G_DeleteRepo(n) == n \in LiveRoots
+
+DeleteRepo_Ok(n) ==
+    /\ G_DeleteRepo(n)
+    /\ dead' = dead \cup {n}
+    /\ UNCHANGED <<nn, par, kids, br, lk, kind, rp, uid, head>>
+    /\ last' = [op |-> "deleterepo", node |-> n, ok |-> TRUE]
+
+DeleteRepo_Rej(n) ==
+    /\ ~G_DeleteRepo(n)
+    /\ Rej([op |-> "deleterepo", node |-> n])
+
+(***************************************************************************)
+(* Requests that must leave the version graph alone whatever their outcome: *)
+(* node note / log, repo log, data instance creation, rename and deletion.  *)
+(***************************************************************************)
+NeutralKinds == {"note", "log", "repolog", "newinstance", "renameinstance", "deleteinstance"}
+Neutral(k, n) ==
+    /\ WithRejects /\ n \in Live
+    /\ UNCHANGED dagvars
+    /\ last' = [op |-> k, node |-> n, ok |-> TRUE]
+
+(***************************************************************************)
 (* Argument domains (valid and invalid)                                    *)
 (***************************************************************************)
 NodeArgs == Nodes \cup (IF WithRejects THEN {NoNode} ELSE {})
-DupArgs == IF WithRejects THEN {"dup" \o ToString(n) : n \in Nodes} ELSE {}   \* "the UUID node n already has"
+DupArgs == IF WithRejects THEN {"dup" \o ToString(n) : n \in Live} ELSE {}   \* "the UUID node n already has"
 UUIDArgs == {"auto"} \cup UUIDPool \cup DupArgs
 ParentSeqs ==
     LET A == NodeArgs IN
@@ -205,6 +235,8 @@ Next ==
     \/ \E n \in NodeArgs, b \in Branches \cup {"", "master"}, u \in UUIDArgs : Branch_Ok(n, b, u) \/ Branch_Rej(n, b, u)
     \/ \E n \in NodeArgs, t \in UUIDPool \cup DupArgs : Tag_Ok(n, t) \/ Tag_Rej(n, t)
     \/ \E ps \in ParentSeqs : Merge_Ok(ps) \/ Merge_Rej(ps)
+    \/ \E n \in NodeArgs : DeleteRepo_Ok(n) \/ DeleteRepo_Rej(n)
+    \/ \E k \in NeutralKinds, n \in NodeArgs : Neutral(k, n)
 
 Spec == Init /\ [][Next]_vars
 
@@ -234,7 +266,7 @@ Inv_Mirror ==
         /\ Cardinality({i \in 1..Len(par[c]) : par[c][i] = p}) <= 1
 
 \* every caller-assigned UUID names exactly one node
-Inv_UUIDUnique == \A m, n \in Nodes : (uid[m] # "auto" /\ uid[m] = uid[n]) => m = n
+Inv_UUIDUnique == \A m, n \in Live : (uid[m] # "auto" /\ uid[m] = uid[n]) => m = n
 
 \* a new version only ever hangs off a committed parent
 Inv_ParentsCommitted == \A n \in Nodes : \A i \in 1..Len(par[n]) : lk[par[n][i]]
@@ -277,8 +309,11 @@ RejectedOps ==
               x \in {y \in NodeArgs \X (Branches \cup {"", "master"}) \X UUIDArgs : ~G_Branch(y[1], y[2], y[3])}}
     \cup {[op |-> "tag", node |-> x[1], tag |-> x[2]] : x \in {y \in NodeArgs \X (UUIDPool \cup DupArgs) : ~G_Tag(y[1], y[2])}}
     \cup {[op |-> "merge", parents |-> ps] : ps \in {q \in ParentSeqs : ~MergeArgsOK(q)}}
+    \cup {[op |-> "deleterepo", node |-> n] : n \in {m \in NodeArgs : ~G_DeleteRepo(m)}}
+    \cup {[op |-> k, node |-> n] : k \in NeutralKinds, n \in Live}
 
 StateRec ==
     [nn |-> nn, par |-> par, kids |-> kids, br |-> br, lk |-> lk, kind |-> kind, rp |-> rp, uid |-> uid,
-     heads |-> {[root |-> x[1], branch |-> x[2], node |-> head[x]] : x \in DOMAIN head}]
+     heads |-> {[root |-> x[1], branch |-> x[2], node |-> head[x]] : x \in DOMAIN head},
+     dead |-> dead]
 =============================================================================
